@@ -132,7 +132,11 @@ func (v *fnVC) newConst(prefix, sort string) T {
 }
 
 func (v *fnVC) oblige(kind, text string, goal T, pos token.Pos) {
-	if v.con != nil && v.con.Sweep && (strings.HasPrefix(kind, "pre@") || strings.HasPrefix(kind, "frame.")) {
+	if v.con != nil && v.con.Sweep && strings.HasPrefix(kind, "frame.") {
+		// sweep functions claim no frame (nothing is assumed about it either)
+		return
+	}
+	if v.con != nil && v.con.Sweep && strings.HasPrefix(kind, "pre@") {
 		// sweep functions claim their own run-time errors only: callee preconditions are assumed to hold
 		v.assume(implies(v.reach[v.blk], goal))
 		return
@@ -570,6 +574,23 @@ func (v *fnVC) privateCell(al *ssa.Alloc) bool {
 				if x.X != val || !ok(x, depth+1) {
 					return false
 				}
+			case *ssa.Call:
+				// the address is handed to a callee that is pure by contract (writes nothing that exists) and whose
+				// results cannot carry a reference: the callee cannot keep the address, the cell stays private
+				callee := x.Call.StaticCallee()
+				if callee == nil || callee.Pkg == nil || x.Call.Value == val {
+					return false
+				}
+				con := v.e.spec.Contracts[callee.Pkg.Pkg.Path()+"::"+callee.RelString(callee.Pkg.Pkg)]
+				if con == nil || !con.Pure {
+					return false
+				}
+				res := callee.Signature.Results()
+				for i := 0; i < res.Len(); i++ {
+					if !scalarOrString(res.At(i).Type()) {
+						return false
+					}
+				}
 			case *ssa.MakeClosure:
 				crefs := x.Referrers()
 				if crefs == nil {
@@ -602,6 +623,11 @@ func (v *fnVC) privateCell(al *ssa.Alloc) bool {
 	r := ok(al, 0)
 	v.privCache[al] = r
 	return r
+}
+
+func scalarOrString(t types.Type) bool {
+	b, ok := t.Underlying().(*types.Basic)
+	return ok && b.Kind() != types.UnsafePointer
 }
 
 // keepPrivateCells: after a havoc from old to the current memories, private cells keep their content.
@@ -1709,7 +1735,9 @@ func (v *fnVC) typeAssert(x *ssa.TypeAssert) {
 	var ok, val T
 	if _, isIface := at.Underlying().(*types.Interface); isIface {
 		pred := "impl_" + sanitize(types.TypeString(at, func(p *types.Package) string { return p.Name() }))
-		v.P.add(pred, fmt.Sprintf("(declare-fun %s (Int) Bool)", pred))
+		if pred != "impl_ucfg_Error" { // declared by the prelude (with its facts per dynamic type)
+			v.P.add(pred, fmt.Sprintf("(declare-fun %s (Int) Bool)", pred))
+		}
 		ok = and(not(eq(src, "(mkI 0 0)")), app(pred, app("itag", src)))
 		val = src
 	} else {
